@@ -34,7 +34,7 @@ def kset(name):
         return np.array(DECADES)
     dspec = {'dr0.1x1024': {'length': 1024, 'dr': 0.1}, 'dr0.025x4096': {'length': 4096, 'dr': 0.025},
              'dk0.1x256': {'length': 256, 'dk': 0.1}, 'dk0.05x100': {'length': 100, 'dk': 0.05},
-             'dr0.1x128': {'length': 128, 'dr': 0.1}}[name]
+             'dr0.1x128': {'length': 128, 'dr': 0.1}, 'dr0.1x600': {'length': 600, 'dr': 0.1}}[name]
     d = build.make_domain(dspec)
     if not build.domain_ok(d):
         return None
@@ -313,12 +313,16 @@ def case_koyama(rec, c):
     rec.state()
     N = p['N']
     rec.trans()
+    k0 = k.copy()
     try:
         with np.errstate(all='ignore'):
             got = np.asarray(obj.calculate(k), dtype=float)
     except Exception as e:
         rec.fail(c, 'DiscreteKoyama%r: calculate raised %s: %s' % (p, type(e).__name__, str(e)[:100]), tags(model, 'raises'), repro=repro(model, p, float(k[0])))
         return
+    if not np.array_equal(k, k0):
+        rec.fail(c, 'DiscreteKoyama: calculate modified k', tags(model, 'purity'))
+        k = k0.copy()
     # sum structure: (1/N) sum_ij w_|i-j|(k) with the class's own kernel
     want = np.ones_like(k)
     q = None
@@ -510,12 +514,12 @@ def run(rec, tier, seed):
             cases.append({'kind': 'model', 'model': m, 'params': {}, 'kset': ks})
     nN = [2, 3, 4, 6] if quick else [2, 3, 4, 5, 6, 8, 10, 12]
     for N in nN:
-        for ks in ['decades', 'dk0.1x256', 'dk0.05x100'] + ([] if quick else ['dr0.1x1024']):
+        for ks in ['decades', 'dk0.1x256', 'dk0.05x100'] + (['dr0.1x600'] if N in (3, 6) else []) + ([] if quick else ['dr0.1x1024', 'dr0.1x600']):
             cases.append({'kind': 'model', 'model': 'NFJC', 'params': {'N': N, 'l': 1.0}, 'kset': ks})
     cases.append({'kind': 'model', 'model': 'NFJCalias', 'params': {'N': 4, 'l': 1.0}, 'kset': 'decades'})
     cases.append({'kind': 'model', 'model': 'NFJC', 'params': {'N': 5, 'l': 1.5}, 'kset': 'decades'})
     kN = [2, 3, 6, 10] if quick else [2, 3, 6, 10, 12, 30, 100]
-    LPF = [1, 1.0001, 1.0005, 1.00099, 1.00101, 1.01, 1.0725, 1.5, 3.0, 8.0]
+    LPF = [1, 1.0001, 1.0005, 1.00099, 1.00101, 1.002, 1.005, 1.0099, 1.01, 1.0725, 1.5, 3.0, 8.0]
     for N, (sigma, l) in itertools.product(kN, [(1.0, 0.8), (1.0, 1.0), (1.0, 1.5), (0.8, 1.0), (1.3, 1.0)]):
         lp_min = 4.0 * l ** 3 / (4.0 * l ** 2 - sigma ** 2)
         lps = [lp_min * f for f in (LPF if (not quick or l == 1.0) else LPF[::2])]
@@ -524,7 +528,8 @@ def run(rec, tier, seed):
                 cases.append({'kind': 'koyama', 'params': {'sigma': sigma, 'l': l, 'N': N, 'lp': float(lp)}, 'kset': ks})
     cases.append({'kind': 'koyama', 'params': {'sigma': 1.0, 'l': 1.0, 'N': 100, 'lp': 1.43}, 'kset': 'decades'})      # the docstring's example
     nf = 60 if quick else 400
-    sweep = ([1.0 + 0.003 * (i + 0.5) / nf for i in range(nf)] + [1.003 * (250.0 / 1.003) ** (i / (nf / 2.0)) for i in range(int(nf / 2) + 1)])
+    sweep = ([1.0 + 0.003 * (i + 0.5) / nf for i in range(nf)] + [1.003 + 0.097 * (i + 0.5) / (nf / 2.0) for i in range(int(nf / 2))]
+             + [1.1 * (250.0 / 1.1) ** (i / (nf / 2.0)) for i in range(int(nf / 2) + 1)])
     for sigma, l in ([(1.0, 0.6), (1.0, 0.8), (0.8, 1.0)] if quick else [(1.0, 0.6), (1.0, 0.8), (0.8, 1.0), (1.0, 1.0), (1.3, 1.0), (1.0, 1.5), (1.0, 2.0), (0.5, 1.0), (1.9, 1.0)]):
         for part in range(4):
             cases.append({'kind': 'koyama_lpsweep', 'sigma': sigma, 'l': l, 'N': 4, 'factors': [round(f, 9) for f in sweep[part::4]]})
